@@ -19,11 +19,11 @@ def mk(t0, t1):
     return p, sp
 
 
-def repl_count(t0, t1, pat=0, **kw):
+def repl_count(t0, t1, formatted=False, pat=0, **kw):
     PAT = PATTERNS[pat]
     p, sp = mk(t0, t1)
     xml = p.serialize()
-    n = p.replace(PAT)
+    n = p.replace(PAT, formatted=formatted)
     exp = len(re.findall(PAT, t0)) + len(re.findall(PAT, t1)) + len(re.findall(PAT, TAIL))
     return (n != exp or p.serialize() != xml), f"replace({PAT!r}) counted {n}, per-run matches {exp}; tree changed: {p.serialize() != xml}"
 
@@ -84,3 +84,13 @@ def repl_formatted_tree(t0, t1, new="", **kw):
     node = etree.fromstring(p.serialize(with_ns=True).encode())
     ok = n == cnt and p.inner_text == exp and collapse_xml(node) == exp
     return (not ok), f"<p>{t0!r}<span>{t1!r}</span>'xb'</p>.replace('x', {new!r}, formatted=True) -> {n} (expected {cnt}); text {p.inner_text!r}, consumer reads {collapse_xml(node)!r}, expected {exp!r}; {p.serialize()}"
+
+
+def count_pure_ws(t, **kw):
+    p = Element.from_tag("text:p")
+    p._Element__element.text = t
+    xml = p.serialize()
+    n1 = p.replace("a", formatted=True)
+    n2 = p.replace("a", formatted=True)
+    ok = p.serialize() == xml and n1 == n2 == len(re.findall("a", t))
+    return (not ok), f"replace('a', formatted=True) count on raw {t!r}: {n1}, {n2}; document changed: {p.serialize() != xml}"
